@@ -96,23 +96,16 @@ theorem angle_formula (u : Cfg.Unit) (r dA dC k : Rat) : angleImpl u r dA dC k =
 theorem scales_rejected (pairs : List (Rat × Rat)) :
     Gen.scalesInvalid pairs = true ↔ ∃ p ∈ pairs, p.2 ≤ p.1 := by
   unfold Gen.scalesInvalid Gen.scaleBad
-  simp only [List.any_eq_true, decide_eq_true_eq]
-  constructor
-  · rintro ⟨p, hp, h⟩; exact ⟨p, hp, by linarith⟩
-  · rintro ⟨p, hp, h⟩; exact ⟨p, hp, by linarith⟩
+  -- (both spellings of the test, `any (hi - lo ≤ 0)` and the NaN-proof `not all (hi - lo > 0)`, normalise to `hi ≤ lo`)
+  simp only [List.any_eq_true, decide_eq_true_eq, Bool.not_eq_eq_eq_not, Bool.not_true, decide_eq_false_iff_not, gt_iff_lt,
+    not_lt, sub_pos, sub_nonpos]
 
 /-- non-increasing (or too few) edges are rejected -/
 theorem edges_rejected (e : List Rat) :
     Gen.edgesInvalid e = true ↔ e.length < 2 ∨ ∃ p ∈ e.zip e.tail, p.2 ≤ p.1 := by
   unfold Gen.edgesInvalid
-  simp only [Bool.or_eq_true, decide_eq_true_eq, List.any_eq_true]
-  constructor
-  · rintro (h | ⟨p, hp, h⟩)
-    · exact Or.inl h
-    · exact Or.inr ⟨p, hp, by linarith⟩
-  · rintro (h | ⟨p, hp, h⟩)
-    · exact Or.inl h
-    · exact Or.inr ⟨p, hp, by linarith⟩
+  simp only [Bool.or_eq_true, decide_eq_true_eq, List.any_eq_true, Bool.not_eq_eq_eq_not, Bool.not_true, decide_eq_false_iff_not,
+    gt_iff_lt, not_lt, sub_pos, sub_nonpos]
 
 /-- neither edges nor both of zmin / zmax: rejected -/
 theorem create_requires_limits (p : BinParams) (h : p.edges = none) (hz : p.zmin = none ∨ p.zmax = none) :
